@@ -64,7 +64,20 @@ impl Printer {
                 }
             }
         }
-        out.flush().unwrap();
+        // (standard output is buffered: this is where a write to it can fail)
+        if let Err(e) = out.flush() {
+            let _ = writeln!(
+                &mut stderr(),
+                "Error writing {:?} for {}",
+                file_info.path().to_string_lossy(),
+                e
+            );
+            matcher_io.set_exit_code(1);
+            if e.kind() == std::io::ErrorKind::BrokenPipe {
+                // nobody is reading any more
+                matcher_io.quit();
+            }
+        }
     }
 }
 
